@@ -1,5 +1,5 @@
 """Property -> rules wiring.  Each function returns kwargs for Ctx.finish()."""
-from . import control, history, descent, warm, degenerate, feasible, plumb, matrix, storage, formulas, penalgebra, misc, extents, blockpen, cox, reweight
+from . import control, history, descent, warm, degenerate, feasible, plumb, matrix, storage, formulas, penalgebra, misc, extents, blockpen, cox, reweight, critical
 
 TB = ["CPython ast", "role seeds: positional parameters of BaseSolver._solve and the "
       "fixed slot-method names of the datafit/penalty interface"]
@@ -178,6 +178,7 @@ def c16(A, ctx, tier):
     penalgebra.r_alphamax(A, ctx, dict(floor=4))
     extents.r_idx(A, ctx, dict(floor=3, floor_typed=3), rule="R-IDX-ALPHAMAX",
                   select=lambda f: f.name == "alpha_max" or f.name.startswith("_alpha_max"))
+    critical.r_critical(A, ctx, dict(floor=4))
     ctx.assume("that a fit slightly below alpha_max is non-zero is numerical and not decided")
     return dict(explanation="critical strength: alpha_max helpers exclude zero weights "
                 "before dividing; a solver that fits an intercept cannot exit at w = 0 "
